@@ -222,6 +222,10 @@ pub struct Env {
     pub spurious_park: Option<u8>,
     /// loom preemption bound (None = all schedules)
     pub preempt: Option<u8>,
+    /// sleeps / yields of each thread that do not let the peer run (a peer
+    /// frozen for a long time)
+    #[serde(default)]
+    pub stall: u8,
 }
 
 #[derive(Clone, Debug, PartialEq, Eq, Hash, PartialOrd, Ord, Serialize, Deserialize)]
